@@ -86,4 +86,47 @@ namespace vh
         return "ctl=" + ctl + " exec=" + std::string(result_name(res)) + " state=" + std::string(state_name(v.rt->runtime_state())) +
             " contexts=" + std::to_string(n) + " joined=1";
     }
+
+    // ctl3 <program> <k> <actions>: execute(start); right before instruction k+1 (hook
+    // verif_before_instruction, executing thread, run flag held) the actions are issued.
+    inline std::string verb_ctl3(const std::vector<std::string>& f)
+    {
+        std::string text = f.size() > 0 ? f[0] : std::string();
+        size_t k = f.size() > 1 && !f[1].empty() ? (size_t)std::stoul(f[1]) : 0;
+        std::string actions = f.size() > 2 ? f[2] : std::string();
+        auto v = make_vm(regmode::real);
+        auto set = v.rt->parser_sqf().parse(*v.rt, text, sqf::runtime::fileio::pathinfo(std::string("f"), std::string()));
+        if (!set.has_value()) { return "parse-error"; }
+        auto context = v.rt->context_create().lock();
+        context->push_frame(sqf::runtime::frame(v.rt->default_value_scope(), *set));
+        std::string ctl;
+        size_t seen = 0;
+        v.rt->verif_before_instruction = [&]() {
+            if (seen++ != k) { return; }
+            for (char a : actions)
+            {
+                sqf::runtime::runtime::action act;
+                switch (a)
+                {
+                case 'S': act = sqf::runtime::runtime::action::start; break;
+                case 'T': act = sqf::runtime::runtime::action::stop; break;
+                case 'A': act = sqf::runtime::runtime::action::abort; break;
+                case 'a': act = sqf::runtime::runtime::action::assembly_step; break;
+                case 'l': act = sqf::runtime::runtime::action::line_step; break;
+                case 'v': act = sqf::runtime::runtime::action::leave_scope; break;
+                default: continue;
+                }
+                auto r = v.rt->execute(act);
+                if (!ctl.empty()) { ctl.push_back(','); }
+                ctl += result_name(r);
+            }
+        };
+        auto res = v.rt->execute(sqf::runtime::runtime::action::start);
+        v.rt->verif_before_instruction = nullptr;
+        size_t n = 0;
+        for (auto it = v.rt->context_begin(); it != v.rt->context_end(); ++it) { n++; }
+        auto ns = v.rt->default_value_scope();
+        return "ctl=" + ctl + " exec=" + std::string(result_name(res)) + " state=" + std::string(state_name(v.rt->runtime_state())) +
+            " contexts=" + std::to_string(n) + " | tr=" + (ns->contains("tr") ? render_value(ns->at("tr")) : std::string("undef"));
+    }
 }
